@@ -3,6 +3,7 @@ CONSTANTS
  AllLens <- Lens0to320
  EdgeLens <- Edges
  BigLens <- Big3
+ ShaEvery = 2
  Reps = 1
 ACTION_CONSTRAINT Emit
 CHECK_DEADLOCK FALSE
